@@ -79,7 +79,11 @@ def point_to_ellipsoid(
              - radii2point2[0] * pqr2[1] * pqr2[2]
              - radii2point2[1] * pqr2[0] * pqr2[2]
              - radii2point2[2] * pqr2[0] * pqr2[1])
-        if abs(s) < epsilon:
+        # s has the unit length^12: compare it with the product it was
+        # multiplied by, i.e. test the dimensionless ellipsoid equation
+        # 1 - sum_i (radii_i * point_i / (t + radii_i^2))^2 = 0. An absolute
+        # test ends the iteration at the initial guess for small ellipsoids.
+        if abs(s) < epsilon * pqr2[0] * pqr2[1] * pqr2[2]:
             break
 
         pq = pqr[0] * pqr[1]
